@@ -535,6 +535,8 @@ def resolve_map(entries, tree, mode):
                     value = [["num", G.NUMS[i % len(G.NUMS)]], ["flt", G.FLOATS[i % len(G.FLOATS)]]][j % 2]
                     if tag in {"", "real"} and j >= 6:  # noqa: PLR2004
                         value = ["neg", value]
+                    if tag != "positive" and j == 5:  # noqa: PLR2004
+                        value, how = ["int", 0], "zero"  # sympy's zero is falsy: `new or old` idioms keep the old argument
                 elif how == "expr":
                     value = _expr_value(tag, i)
                 else:  # merge with another scalar symbol of the instance with at least these assumptions
@@ -665,8 +667,25 @@ def check_commute(e, d, tree, desc, labels, nontrivial):
     else:
         lhs = _ut("subs", e.subs, mapping)
         rhs = _ut("doit.subs", d.subs, mapping)
-    lhs_d = _ut(f"{mode}.doit", lhs.doit)
     detail = {"mode": mode, "mapping": {str(k): str(v) for k, v in mapping.items()}}
+    # a replaced symbol is gone (values are free of the keys; a key that is a bound index of a sum is not free before)
+    def _free(x) -> set:
+        try:
+            return set(x.free_symbols)
+        except Exception:  # noqa: BLE001  (sympy's Basic.free_symbols on a node that keeps a Python object in .args)
+            return set()
+
+    value_symbols = set().union(*[_free(v) for v in mapping.values()])
+    before, after = _free(e), _free(lhs)
+    survivors = sorted(str(k) for k in mapping if k in before and k not in value_symbols and k in after)
+    if survivors:
+        return violation(f"{mode}_leaves_replaced_symbol_behind", nontrivial, labels, **detail, survivors=survivors, got=str(lhs)[:300])
+    lhs_d = _ut(f"{mode}.doit", lhs.doit)
+    if any(h == "zero" for _, _, h in pairs):
+        singular = {sp.zoo, sp.nan, sp.oo, -sp.oo}
+        if any(n in singular for x in (lhs_d, rhs) for n in sp.preorder_traversal(x) if isinstance(n, sp.Basic) and not n.args):
+            labels.append("commute:zero_substitution_singular")  # 0/0 before or after cancellation: not a statement about the code
+            return None
     all_miss = all(h == "miss" for _, _, h in pairs)
     if all_miss and G.digest(lhs) != G.digest(e):
         return violation(f"{mode}_miss_changes_object", nontrivial, labels, **detail, got=str(lhs)[:300])
@@ -828,6 +847,14 @@ def check_pair(e, tree, desc, labels, nontrivial):
     if differs is not None and G.digest(e2) == G.digest(e):
         labels.append("pair:variant_identical")
         differs = None
+    if differs is None:
+        # the same instance once more, with the keyword arguments in the opposite order (and, where the class
+        # unfolds, through the constructor flag evaluate=True): order of keywords is not part of an instance
+        e3 = G.build(variant, under_test, keywords="reversed")
+        if G.digest(e3) != G.digest(e) or not (e3 == e) or hash(e3) != hash(e):
+            return violation("keyword_order_changes_instance", nontrivial, labels, e=str(e)[:200], e_reversed_keywords=str(e3)[:200],
+                             args=[str(a)[:60] for a in e.args][:8], args_reversed=[str(a)[:60] for a in e3.args][:8])
+        labels.append("pair:keyword_order_checked")
     expect_equal = differs is None
     eq, eq_rev, ne = bool(e == e2), bool(e2 == e), bool(e != e2)
     h1, h2 = hash(e), hash(e2)
@@ -891,6 +918,36 @@ def check_siblings(e, d, tree, desc, labels, nontrivial):
         return violation("doit_incomplete", nontrivial, labels, folded_classes_left=left, where="Kallen(e, e', x)")
     labels.append("siblings:structure_differs_not_judged")
     return None
+
+
+def check_evaluate_flag(e, tree, labels, nontrivial):
+    """``cls(..., evaluate=True)`` (constructor flag of every ``@unevaluated`` class) == ``cls(...).evaluate()``."""
+    import dataclasses  # noqa: PLC0415
+
+    cls = type(e)
+    if not dataclasses.is_dataclass(cls) or not callable(getattr(e, "evaluate", None)) or tree[0] != "cls":
+        return None
+    try:
+        want = e.evaluate()
+    except Exception:  # noqa: BLE001  (a class without an unfolding, or a singular one: nothing to compare)
+        return None
+    args = [G.build(a) for a in tree[2]]
+    got = G.build_instance(tree[1], args, tree[3], lambda label, fn, *a, **k: under_test(f"{label[:-2]}(evaluate=True)", fn, *a, evaluate=True, **k))
+    labels.append("evaluate_flag:checked")
+    if got == want or G.digest(got) == G.digest(want):
+        return None
+    sp = _sp()
+    if isinstance(got, sp.Basic) and isinstance(want, sp.Basic):
+        if got.atoms(sp.Dummy) or want.atoms(sp.Dummy):
+            # every evaluate() call creates its own bound Dummy (SphericalHankel1): compare the unfolded values
+            try:
+                if got.doit() == want.doit():
+                    return None
+            except Exception:  # noqa: BLE001, S110
+                pass
+            labels.append("evaluate_flag:dummies_not_judged")
+            return None
+    return violation("evaluate_flag_differs_from_evaluate", nontrivial, labels, got=str(got)[:300], want=str(want)[:300])
 
 
 def check_rebuild(e, labels, nontrivial):
@@ -1091,12 +1148,13 @@ def run_case(desc) -> Result:
         lambda: check_pair(e, tree, desc, labels, nontrivial),
         lambda: check_siblings(e, d, tree, desc, labels, nontrivial),
         lambda: check_rebuild(e, labels, nontrivial),
+        lambda: check_evaluate_flag(e, tree, labels, nontrivial),
         lambda: check_codegen(e, d, tree, labels, nontrivial),
     ]
     if G.count_nodes(d, MAX_NODES_UNFOLDED) >= MAX_NODES_UNFOLDED:
         # the size estimate of the generator was too optimistic: keep the cheap laws only
         labels.append("unfolded_form_too_large:commute_and_codegen_skipped")
-        checks = checks[1:4] + checks[5:6]
+        checks = checks[1:4] + checks[5:7]
     for check in checks:
         try:
             res = check()
